@@ -203,6 +203,7 @@ type vfConn struct {
 	rdl, wdl  *deadline.Deadline
 	mu        sync.Mutex
 	failWrite bool
+	failErr   error // what a failing Write returns (default errVfInjected)
 	blockW    bool
 	readFail  chan struct{}
 	rfOnce    sync.Once
@@ -244,11 +245,14 @@ func (c *vfConn) Write(b []byte) (int, error) {
 	default:
 	}
 	c.mu.Lock()
-	fw, bw := c.failWrite, c.blockW
+	fw, bw, fe := c.failWrite, c.blockW, c.failErr
 	c.mu.Unlock()
 	if fw {
 		c.w.tr.emit(map[string]any{"ev": "txfail", "ep": c.side, "why": "injected", "t": c.w.now()})
 		c.w.poke()
+		if fe != nil {
+			return 0, fe
+		}
 		return 0, errVfInjected
 	}
 	if bw {
